@@ -584,6 +584,18 @@ def gen_C05(tier, rng):
         for extra in ({}, {"remove_empty_shapes": False}, {"inverse_paths": True}):
             cases.append({"pid": "C05", "origin": "emptied-shape", "input": {"format": "nt", "text": U.to_nt(Te)},
                           "cfg": _merge({"all_classes_mode": True, "shape_map_raw": "{FOCUS o:q _}@<http://shapes.ex/L1>"}, extra), "t": t})
+    # a shape-map shape that a threshold empties while a survivor refers to it ONLY through an inverse constraint (and one only directly)
+    for n_props in (2, 3, 4):
+        As = [M.IRI(G.EX + "a%d" % j) for j in range(n_props)]
+        b1, b2, c1 = M.IRI(G.EX + "b1"), M.IRI(G.EX + "b2"), M.IRI(G.EX + "c1")
+        Ti = [M.Triple(a, G.EX + "p%d" % j, b1) for j, a in enumerate(As)] + [M.Triple(c1, G.EX + "r", As[0]), M.Triple(b2, G.EX + "k", M.Lit("x")),
+                                                                           M.Triple(b1, G.EX + "k", M.Lit("y"))]
+        sm = "\n".join(["<%s>@<http://shapes.ex/A>" % a.iri for a in As] + ["<%s>@<http://shapes.ex/B>" % b1.iri, "<%s>@<http://shapes.ex/B>" % b2.iri,
+                                                                            "<%s>@<http://shapes.ex/C>" % c1.iri])
+        for t in (0, 0.5, 0.51, 1):
+            for extra in ({"inverse_paths": True}, {}, {"inverse_paths": True, "remove_empty_shapes": False}):
+                cases.append({"pid": "C05", "origin": "emptied-shape-referenced-through-inverse-only", "input": {"format": "nt", "text": U.to_nt(Ti)},
+                              "cfg": _merge({"shape_map_raw": sm}, extra), "t": t})
     # all_classes_mode + shape map where a CLASS IRI is itself a tracked instance (typed owl:Class / selected by the map); ontology first
     OWL_CLASS = "http://www.w3.org/2002/07/owl#Class"
     cA, cB = M.IRI(G.CLASS_A), M.IRI(G.CLASS_B)
